@@ -3,6 +3,7 @@ package props
 import (
 	"fmt"
 	"go/ast"
+	"go/token"
 	"go/types"
 	"sort"
 	"strings"
@@ -45,6 +46,7 @@ func C16(r *core.Run) {
 	namingConventions(r)
 	requestSplit(r)
 	httpVerbs(r)
+	pathParamNames(r)
 }
 
 // recursionGuards (R-TERM/T2): walks over schema references carry a visited set.
@@ -302,4 +304,64 @@ func httpVerbs(r *core.Run) {
 		r.Fatal("R-EXH/X3h: expected 5 HTTP patterns from the compiler, found %d", len(ks))
 	}
 	_ = fmt.Sprintf
+}
+
+// pathParamNames (R-PROV/pathnames): a ':name' element of a J5 path must name
+// a request property, and request properties are keyed by the field's JSON
+// name (which the j5s compiler sets explicitly, so it is not derivable from
+// the proto field name by case conversion).
+func pathParamNames(r *core.Run) {
+	r.Rule("R-PROV/pathnames", "every \":\"+X path element built in internal/structure takes X from protoreflect.FieldDescriptor.JSONName() (directly or through one local); a name computed any other way (case conversion of the proto name) does not match the request property for names like widgetID")
+	pk := r.P.Pkg("internal/structure")
+	if pk == nil {
+		r.Fatal("anchor: package internal/structure not found")
+		return
+	}
+	info := pk.TypesInfo
+	isJSONName := func(e ast.Expr) bool {
+		c, ok := core.Unparen(e).(*ast.CallExpr)
+		if !ok {
+			return false
+		}
+		s, ok := c.Fun.(*ast.SelectorExpr)
+		return ok && s.Sel.Name == "JSONName" && strings.Contains(core.TypeStr(info.TypeOf(s.X)), "protoreflect.FieldDescriptor")
+	}
+	core.AllFuncDecls(pk, func(fd *ast.FuncDecl) {
+		ast.Inspect(fd.Body, func(nd ast.Node) bool {
+			b, ok := nd.(*ast.BinaryExpr)
+			if !ok || b.Op != token.ADD {
+				return true
+			}
+			if s, isC := core.ConstString(info, b.X); !isC || s != ":" {
+				return true
+			}
+			o := r.Add("R-PROV/pathnames", fmt.Sprintf("internal/structure.%s | \":\" + %s", core.FuncName(fd), core.ExprStr(b.Y)), b.Pos(), "name of a path parameter")
+			ok2 := isJSONName(b.Y)
+			if id, isID := core.Unparen(b.Y).(*ast.Ident); isID && !ok2 {
+				obj := info.Uses[id]
+				n, good := 0, 0
+				ast.Inspect(fd.Body, func(x ast.Node) bool {
+					if as, isAs := x.(*ast.AssignStmt); isAs && len(as.Lhs) == len(as.Rhs) {
+						for i, l := range as.Lhs {
+							if li, isLI := l.(*ast.Ident); isLI && (info.Defs[li] == obj || info.Uses[li] == obj) {
+								n++
+								if isJSONName(as.Rhs[i]) {
+									good++
+								}
+							}
+						}
+					}
+					return true
+				})
+				ok2 = n > 0 && n == good
+			}
+			if ok2 {
+				o.Auto("the field descriptor's JSONName()")
+			} else {
+				o.Fail("the path parameter is named %s, not the field's JSONName(): for a property like widgetID the path says :widgetId, no request property matches it, and the key silently becomes a query/body parameter", core.ExprStr(b.Y))
+			}
+			return true
+		})
+	})
+	r.Floor("R-PROV/pathnames", 1, "path parameter constructions in internal/structure")
 }
